@@ -55,7 +55,7 @@ macro_rules! w_all {
 #[macro_export]
 macro_rules! w_all_wide {
     ($m:ident ! ( $($pre:tt)* )) => {
-        $m!($($pre)* [0, 1, 2, 3, 7, 8, 16, 31, 32, 40, 60, 63, 64, 65, 96, 100, 127, 128, 129, 160, 190, 192, 200, 250, 255, 256, 257, 320, 384, 512, 535, 1024, 4096])
+        $m!($($pre)* [0, 1, 2, 3, 7, 8, 16, 31, 32, 40, 60, 63, 64, 65, 96, 100, 127, 128, 129, 160, 190, 192, 200, 250, 255, 256, 257, 320, 384, 512, 535, 1024, 2112, 4096])
     };
 }
 
